@@ -84,4 +84,36 @@ Proof.
              c0 eq_refl eq_refl (steps r) Hreg bn); auto.
     intros u. unfold c0, init_col. cbn [cr cx]. apply dot_sub_r.
 Qed.
+
+(* the same with the Krylov space itself: the returned column is ||b|| * x_k, x_k lies in  (start) + K_k(PA, P r0)
+   and has the smallest A-norm of the error in that affine space; k = steps *)
+Theorem cg_run_optimal_krylov : forall j b x0,
+  nth_error bs j = Some b -> nth_error x0s j = Some x0 ->
+  let r := run_cg o vo A P flag tol max_iters bs x0s in
+  let c0 := init_col o vo A P flag tol b x0 in
+  let bn := safe_vdiv o vo b (vnorm o vo b) in
+  (forall k, k < steps r -> regular o vo A (cs o vo A P c0 k) /\ cgam (cs o vo A P c0 k) <> 0 /\ d o vo A P c0 k <> 0) ->
+  forall xs, (forall u, dot u (A xs) = dot u bn) ->
+  exists xk, nth_error (sol r) j = Some (vscale vo (cmult c0) xk) /\
+    (exists v, Sp o vo (kgen A P c0) (steps r) v /\ weq vo xk (vadd vo (cx c0) v)) /\
+    forall (Pos : T -> Prop), (forall v, Pos (dot v (A v))) ->
+      forall v, Sp o vo (kgen A P c0) (steps r) v -> Pos (phi vo A xs (vadd vo (cx c0) v) - phi vo A xs xk).
+Proof.
+  intros j b x0 Hb Hx r c0 bn Hreg xs Hxs.
+  pose proof (cg_contract o vo A P flag tol max_iters bs x0s) as C. cbv zeta in C.
+  destruct C as (_ & _ & _ & _ & Hsol & _). unfold the_run in Hsol. fold r in Hsol.
+  pose proof (cg_column_independent o vo A P flag tol bs x0s (steps r) j b x0 Hb Hx) as Hcol. fold c0 in Hcol.
+  exists (cx (cs o vo A P c0 (steps r))).
+  assert (Hm : forall k, cmult (Nat.iter k (step_col o vo A P) c0) = cmult c0).
+  { induction k as [|k IH]; [reflexivity|]. cbn [Nat.iter nat_rect]. unfold step_col at 1. cbn [cmult]. exact IH. }
+  assert (Hr0 : forall u, dot u (cr c0) = dot u bn - dot u (A (cx c0))).
+  { intros u. unfold c0, init_col. cbn [cr cx]. apply dot_sub_r. }
+  split; [|split].
+  - rewrite Hsol, nth_error_map, Hcol. cbn [option_map]. rewrite Hm. reflexivity.
+  - apply (cg_optimal_krylov o vo Fth conj_add conj_mul conj_opp conj_div A P dot_add_r dot_sub_r dot_scale_r dot_sym A_sa P_sa
+             c0 eq_refl eq_refl (steps r) Hreg bn Hr0 xs Hxs (fun _ => True) (fun _ => I) (steps r) (le_n _)).
+  - intros Pos HA.
+    apply (cg_optimal_krylov o vo Fth conj_add conj_mul conj_opp conj_div A P dot_add_r dot_sub_r dot_scale_r dot_sym A_sa P_sa
+             c0 eq_refl eq_refl (steps r) Hreg bn Hr0 xs Hxs Pos HA (steps r) (le_n _)).
+Qed.
 End RunOptimal.
